@@ -86,8 +86,11 @@ class Snapshot:
                     self.end_light(light)
 
         if not any_found:
-            self.append('No lights found.\n')
+            self.no_lights()
         return self
+
+    def no_lights(self):
+        self.append('No lights found.\n')
 
 
 class ScriptSnapshot(Snapshot):
@@ -95,6 +98,10 @@ class ScriptSnapshot(Snapshot):
         # All captured numbers are raw values.
         super().start_snapshot()
         self.append('units raw\n')
+
+    def no_lights(self):
+        # The output is a script: say it in a comment.
+        self.append('# No lights found.\n')
 
     def setting(self, reg, value):
         self.append('{} {:.0f} '.format(reg.name.lower(), value))
